@@ -1,0 +1,48 @@
+//go:build verif
+
+package filesystem
+
+import "sync/atomic"
+
+// This file is only compiled with the "verif" build tag. It provides the step
+// hook used by the external verification harness: verifAtomicStep is invoked
+// by WriteFileAtomic immediately before each of its five steps and, if a
+// callback is installed, lets it terminate the process at that point (a crash)
+// or tamper with the object the next real call operates on, so that the call
+// fails genuinely and the function's own cleanup path runs.
+
+const (
+	// VerifAtomicStepCreate precedes the creation of the temporary file. The
+	// path passed to the callback is the target path.
+	VerifAtomicStepCreate = 1
+	// VerifAtomicStepWrite precedes the write to the temporary file. The path
+	// passed to the callback (for this and all later steps) is that of the
+	// temporary file.
+	VerifAtomicStepWrite = 2
+	// VerifAtomicStepClose precedes the closure of the temporary file.
+	VerifAtomicStepClose = 3
+	// VerifAtomicStepChmod precedes the permission change.
+	VerifAtomicStepChmod = 4
+	// VerifAtomicStepRename precedes the rename onto the target path.
+	VerifAtomicStepRename = 5
+)
+
+// verifAtomicStepCallback holds the installed callback (nil if none).
+var verifAtomicStepCallback atomic.Pointer[func(step int, path string)]
+
+// VerifSetAtomicStep installs f as the atomic write step callback. Passing nil
+// removes the callback.
+func VerifSetAtomicStep(f func(step int, path string)) {
+	if f == nil {
+		verifAtomicStepCallback.Store(nil)
+	} else {
+		verifAtomicStepCallback.Store(&f)
+	}
+}
+
+// verifAtomicStep consults the installed step callback, if any.
+func verifAtomicStep(step int, path string) {
+	if f := verifAtomicStepCallback.Load(); f != nil {
+		(*f)(step, path)
+	}
+}
